@@ -56,7 +56,10 @@ pub fn run(args: &Args) -> SubResult {
             check_c06: true,
             check_c10: true,
             check_ledger: true,
-            check_presence: false,
+            // with these scripts the compound creates no entry besides itself, so presence of every
+            // key is exactly what the top-level operations made it (a reload must not re-create a
+            // removed key on its own)
+            check_presence: nscript == "C:k" || nscript == "O:k",
         };
         let s = Search { harness: "c10_static", cfg, init: vec![], moves: vec![moves.clone()], depth, dedup: true, max_hist: if thorough { 400_000 } else { 30_000 } };
         run_search(res, &s);
